@@ -82,7 +82,7 @@ P = {
 
 GUARDS = {
  "C13": "the places where the configuration document gets its canonical order (input types, component connections, aliases)",
- "C16": "ItemList.numbers (alternate-vocabulary path, computing the own numbers, the KeyError test)",
+ "C16": "ItemList.numbers (alternate-vocabulary path, computing the own numbers, the KeyError test) and of the copy constructor (which of the identifiers, numbers and cached ranks copied from the source an override makes stale)",
  "C14": "the copy depth at PipelineBuilder.from_pipeline / build_config and DatasetBuilder.__init__ / build_container",
  "C05": "the path selection of sample_records and sample_users (fall-back calls with their arguments)", "C06": "RankingMetricBase.truncate, Recall's denominator and nDCG's ideal length",
  "C01": "MatrixRelationshipSet.row_items", "C02": "fallback_on_none (use_first_of)", "C03": "TopNRanker.__call__ and UserTrainingHistoryLookup.__call__",
